@@ -10,9 +10,9 @@ Replies(rt) ==
       [] rt = "new"    -> {"new", "new-bad", "notfound", "methodnotfound", "invalidparams", "error-res"}
       [] OTHER         -> {"ok", "ok-nil", "ok-bad", "resource", "resource-bad", "notfound", "methodnotfound", "invalidparams", "invalidparams-msg", "invalidquery", "error-res", "error-plain"}
 Others(rt) ==
-    {"timeout", "timeout-neg", "ev-custom", "ev-reserved", "ev-malformed", "ev-change", "ev-change-empty", "ev-add", "ev-add-neg", "ev-remove",
+    {"ev-custom-bad", "ev-change-bad", "ev-add-bad", "timeout", "timeout-neg", "ev-custom", "ev-reserved", "ev-malformed", "ev-change", "ev-change-empty", "ev-add", "ev-add-neg", "ev-remove",
      "ev-remove-neg", "ev-create", "ev-delete", "ev-reaccess", "ev-reset", "panic-res", "panic-err", "panic-str", "panic-int"}
-    \cup (IF rt \in {"access", "call", "auth"} THEN {"status", "header"} ELSE {})
+    \cup (IF rt \in {"access", "call", "auth"} THEN {"status", "header", "status-redirect", "header-location"} ELSE {})
     \cup (IF rt = "auth" THEN {"tokenevent"} ELSE {})
     \cup (IF rt # "get" THEN {"value"} ELSE {})
 Alphabet(rt) == Replies(rt) \cup Others(rt)
@@ -24,9 +24,9 @@ Aps == { [change |-> "absent", add |-> "absent", remove |-> "absent", create |->
 Scenarios ==
     { [rtype |-> (IF k = "new" THEN "call" ELSE k), method |-> (IF k = "new" THEN "new" ELSE IF k \in {"call", "auth"} THEN "m" ELSE ""),
        matched |-> mt, payload |-> pl, http |-> h, hasAccess |-> hc, hasGet |-> hc, hasNew |-> (k = "new" /\ hc),
-       calls |-> (IF hc THEN {"m"} ELSE {"*"}), auths |-> (IF hc THEN {"m"} ELSE {}), rt |-> rt, ap |-> ap, nl |-> nl, script |-> <<>>, kind |-> k]
+       calls |-> (IF hc THEN {"m"} ELSE {"*"}), auths |-> (IF hc THEN {"m"} ELSE {}), rt |-> rt, ap |-> ap, nl |-> nl, script |-> <<>>, kind |-> k, pubfail |-> pf]
       : k \in {"access", "get", "call", "auth", "new"}, mt \in BOOLEAN, pl \in {"empty", "valid", "malformed"}, h \in BOOLEAN,
-        hc \in BOOLEAN, rt \in {"model", "collection", "unset"}, ap \in Aps, nl \in {0, 2} }
+        hc \in BOOLEAN, rt \in {"model", "collection", "unset"}, ap \in Aps, nl \in {0, 2}, pf \in BOOLEAN }
 
 VARIABLE sc
 Init == sc \in Scenarios
